@@ -181,3 +181,10 @@ CHECKS["C23"] = {
     "text": "26 legal kernels (GH_INC/READINC/WRITE/READWRITE x w0..wtheta, any_space, any_discontinuous_space...), 1- and 2-kernel invokes, dm off and on; quick: single-kernel invokes to depth 3, pairs to depth 2-3 (180k operation applications, 36.8k states, 5.1k generated and judged); thorough: depth 4 / 3 (4.2M applications, 790k states, 104k judged). No parallel (omp do / parallel do / acc loop) loop over cells may contain a kernel incrementing a continuous or unknown space unless it is a loop over the cells of one colour; no loop over colours may sit under a parallel directive.",
     "note": "Weaker reading: a state is 'produced' only when psy.gen succeeds; loops merely inside acc parallel/kernels regions (PSyclone's documented recipe) are counted, not judged; `same_space` is treated as a force option. Fixed: GH_READINC not treated as an increment; colouring allowed under an acc loop directive.",
 }
+
+CHECKS["C04"] = {
+    "level": "model_checking",
+    "technique": "exhaustive bounded enumeration of (a) a declaration corpus read and re-written, (b) API-built symbol tables: every dependency-closed subset of 16 entities x every insertion order, (c) symbols placed in nested scopes under clashing names, (d) explicit-state BFS over histories of 22 symbol-adding transformations on 12 seed routines whose locals collide with the names transformations invent; oracle = gfortran -fimplicit-none -std=f2008 (batched, repeated until clean), an independent text-level declare-once / declare-before-use reader, and alpha-equivalence with the same history on a unique-names variant (captured references)",
+    "text": "quick: 2.8k corpus programs, 3.7k API tables, 1k nested-scope configurations, 1.3k BFS states / 6k transformation applications, 22 generated PSy layers (8.9k evaluations, 154 gfortran runs); thorough: 14k / 36k / 8k / 9.3k states. Every written unit must compile with implicit typing disabled, declare or import each referenced name exactly once, declare every entity before any declaration that depends on it, and rename clashing inner-scope symbols without capturing other references.",
+    "note": "Signed-operand (C02) and directive-placement (C10) diagnostics are ignored here; OpenMP and OpenACC are never mixed in one history; a documented writer refusal is an allowed outcome, any other writer exception a violation. Fixed (6 defects, 4 commits): forward-referenced derived type lost, declaration dependency order (parameter shapes, argument bounds, component types), inner symbol capturing a module symbol, PSyData region scope symbols dropped.",
+}
